@@ -56,6 +56,28 @@ fn main() {
         let _ = Problem::from_str(&s);
         cases += 1;
     }
-    println!("STATS {{\"systems\": {cases}, \"sqrt_depth\": {depth}, \"long_len\": {long}, \"violations\": 0}}");
+    // a multi-byte character at EVERY character boundary of well-formed texts (all instruction forms
+    // occur over the 24 generated texts): byte-offset peeking (`&i[..5]`) panics only when a
+    // multi-byte character straddles the offset, so every position is tried with 2-, 3- and 4-byte
+    // characters; each result may be Ok or Err, but the call must return
+    let mut non_ascii_positions = 0usize;
+    for sd in 0..24u64 {
+        let mut rng = ezpz_verif_harness::rng::Rng::new(0xC09 + sd);
+        let gp = ezpz_verif_harness::textgen::gen_valid(&mut rng);
+        let base = ezpz_verif_harness::textgen::text_of(&gp, &mut rng);
+        for at in 0..=base.len() {
+            if !base.is_char_boundary(at) {
+                continue;
+            }
+            for c in ['°', '€', '\u{1F600}'] {
+                let mut t = base.clone();
+                t.insert(at, c);
+                let _ = Problem::from_str(&t).map(|p| p.to_constraint_system().map(|c| c.constraints.len()));
+                non_ascii_positions += 1;
+            }
+        }
+    }
+    cases += non_ascii_positions;
+    println!("STATS {{\"systems\": {cases}, \"sqrt_depth\": {depth}, \"long_len\": {long}, \"non_ascii_positions\": {non_ascii_positions}, \"violations\": 0}}");
     println!("DEEP-OK");
 }
